@@ -269,6 +269,17 @@ def corpus_cases(ctx):
         if not fn.endswith(".json"):
             continue
         spec = json.load(open(os.path.join(d, fn)))
+        if spec.get("dir"):
+            # a program made of files (imports): DIR/main.aelys run the way `aelys run` does; what it prints vs what the property requires
+            rc, out = vlib.sh([paths["hx_callcache"], "--files", os.path.join(d, spec["dir"]), "--opt", str(spec.get("opt", 1))], timeout=120)
+            f = (out.splitlines() or ["\t\t"])[0].split("\t")
+            got = f[2] if len(f) > 2 and f[1] == "ok" else "<" + (f[1] if len(f) > 1 else "no output") + ">"
+            ctx.cov.setdefault("corpus", []).append({"file": fn, "observed": got, "expected_by_property": spec["expected_output"]})
+            if got != spec["expected_output"]:
+                ctx.violation(spec["signature"], spec["what"] + f" (observed {got!r}, the property requires {spec['expected_output']!r})",
+                              {"corpus": fn, "dir": spec["dir"], "files": {x: open(os.path.join(d, spec["dir"], x)).read() for x in sorted(os.listdir(os.path.join(d, spec["dir"])))},
+                               "observed": got, "expected": spec["expected_output"]})
+            continue
         src = os.path.join(d, spec["session"])
         cmd = [paths["hx_callcache"], "--session", src, "--opt", str(spec.get("opt", 1))]
         if spec.get("reload"):
